@@ -41,8 +41,8 @@ Proof.
   cbn [resolve]. rewrite (IHc Hc). destruct a; try reflexivity. discriminate.
 Qed.
 
-Theorem comp_correct_frag : forall p fuel ch,
-  all_list frag p = true -> wf0 p = true -> known_C01 p = false ->
+Theorem comp_correct_all : forall p fuel ch,
+  wf0 p = true -> known_C01 p = false ->
   compile p = OK ch ->
   match Sem0.run fuel p with
   | Done v => exists n, VM0.run n ch = VDone v
@@ -50,13 +50,13 @@ Theorem comp_correct_frag : forall p fuel ch,
   | _ => True
   end.
 Proof.
-  intros p fuel ch FR WF KN HC.
+  intros p fuel ch WF KN HC.
   unfold known_C01 in KN. apply orb_false_elim in KN as [K1 K2].
   unfold compile in HC. destruct (compile_code p) as [[code pl]|] eqn:CC; [|discriminate].
   destruct (forallb wf_instr code) eqn:WFI; [|discriminate]. inversion HC; subst ch; clear HC.
   unfold compile_code in CC. cbv zeta in CC.
-  destruct (255 <? 1 + local_count p mod 256) eqn:LC; [discriminate|].
-  set (st0 := init_st (local_count p mod 256)) in *.
+  destruct (255 <? 1 + local_count p) eqn:LC; [discriminate|].
+  set (st0 := init_st (local_count p)) in *.
   match type of CC with match ?b st0 with _ => _ end = _ => destruct (b st0) as [[[u stf] c]|] eqn:BODY; [|discriminate] end.
   inversion CC; subst code pl; clear CC.
   apply bind_inv in BODY. destruct BODY as (blk & st1 & c1 & c2 & HB & HT & ->).
@@ -66,7 +66,7 @@ Proof.
     - unfold st0, init_st. cbn [tcount tused]. lia.
     - intros x l G. unfold st0, init_st, get_local_assigned_register in G. cbn in G. discriminate. }
   change (comp_block (comp (pool_of p)) RAny p st0) with (comp (pool_of p) (EBlock p) RAny st0) in HB.
-  destruct (sim_all (pool_of p) (EBlock p) FR) as (HQ & _).
+  destruct (sim_all (pool_of p) (EBlock p)) as (HQ & _).
   destruct (HQ WF RAny st0 blk st1 c1 HB W0 K2) as ((I1 & E1 & W1 & SH) & DY).
   (* the tail: Return *)
   assert (TAIL : tbase stf = tbase st1 /\ tused st1 <= tused stf /\
@@ -100,10 +100,11 @@ Proof.
     apply andb_prop in WFI. tauto. }
   assert (CR : cares prog 0 (ip st0) c1).
   { exists c1. split; [apply resolve_wf; assumption|exact CA1]. }
-  assert (IV0 : inv st0 noD env0 rs0).
+  assert (IV0 : inv st1 noD env0 rs0).
   { constructor.
-    - intros x l S. unfold st0, init_st, slot_of in S. cbn in S. discriminate.
-    - intros k K3 K4. apply get_resize_null. unfold nregs. rewrite TB0. lia.
+    - intros x l S _. destruct (slot_of_id _ _ _ S) as (L & _). pose proof (wf_len _ W1).
+      apply get_resize_null. unfold nregs. rewrite TB. lia.
+    - intros k K3 K4. apply get_resize_null. unfold nregs. rewrite TB. lia.
     - intros. reflexivity. }
   assert (B0 : tbase st0 + tused st1 <= N.of_nat (length rs0)).
   { unfold rs0. rewrite length_resize. unfold nregs. rewrite TB0. lia. }
@@ -111,7 +112,7 @@ Proof.
   assert (RD0 : forall x, noD x = true -> reads x (EBlock p) = false) by (intros; discriminate).
   assert (LO0 : esc (EBlock p) = true -> loop_ok st0 rs0 noD (EBlock p)).
   { intros _. unfold loop_ok, st0, init_st. cbn. exact I. }
-  specialize (DY (S fuel) env0 rs0 noD prog 0 K1 IV0 RD0 (dest_ok_any _ _ _ _) LO0 B0 CR).
+  specialize (DY (S fuel) env0 rs0 noD prog 0 st1 (ext_refl st1) W1 K1 IV0 RD0 (dest_ok_any _ _ _ _) LO0 B0 CR).
   change (eval (S fuel) env0 (EBlock p)) with (eval_block (eval fuel) env0 p) in DY.
   unfold Sem0.run.
   assert (FIN : forall r, stops (pool_of p) prog 0 [VNull] r -> r <> VBad ->
